@@ -40,4 +40,31 @@ def isGitBugRef (remotes : List String) (r : String) : Bool :=
 def wipe (refs : List String) (remotes : List String) : List String :=
   removeAll (removeAll refs "bugs" remotes) "identities" remotes
 
+
+/-! ### removal of packed refs (go-git: read `packed-refs`, write a copy without the ref, rename) -/
+
+/-- one goroutine removing ref `ref`: it has not read the file yet, or holds the content it read -/
+structure Rewriter where
+  ref : String
+  snap : Option (List String) := none
+  done : Bool := false
+deriving DecidableEq, Repr
+
+/-- goroutine `i` does its next step (read the file / replace the file by its copy without the ref) -/
+def rewriteStep (file : List String) (ts : List Rewriter) (i : Nat) : List String × List Rewriter :=
+  match ts[i]? with
+  | none => (file, ts)
+  | some t =>
+    if t.done then (file, ts)
+    else match t.snap with
+      | none => (file, ts.set i { t with snap := some file })
+      | some content => (content.filter (· != t.ref), ts.set i { t with done := true })
+
+def rewriteRun (file : List String) (ts : List Rewriter) (sched : List Nat) : List String × List Rewriter :=
+  sched.foldl (fun st i => rewriteStep st.1 st.2 i) (file, ts)
+
+/-- the removals done one after the other (each reads what the previous one wrote) -/
+def removeSerial (file : List String) (rs : List String) : List String :=
+  rs.foldl (fun f r => f.filter (· != r)) file
+
 end GitBugModel.Refs
